@@ -5,5 +5,5 @@ ids=${@:-$(ls /verif/seeded)}
 for id in $ids; do
   prop=$(echo $id | cut -c1-3)
   echo "=========== $id"
-  /verif/tools/seeded_verify.sh $id /verif/seeded/$id "$prop" 2>&1 | grep -E "^---|exit=|^VIOL|clause=|^OK|^HARN|runs=" | cut -c1-300
+  /verif/tools/seeded_verify.sh $id /verif/seeded/$id "$prop" ${SEEDED_RUNS:+--runs $SEEDED_RUNS} 2>&1 | grep -E "^---|exit=|^VIOL|clause=|^OK|^HARN|runs=" | cut -c1-300
 done
